@@ -252,4 +252,109 @@ theorem lmax_ge_aux (l : List ℚ) (m : ℚ) :
 /-- `lmax` (= `K.max` of the scale tensor) dominates every entry -/
 theorem le_lmax {l : List ℚ} {a : ℚ} (h : a ∈ l) : a ≤ lmax l := (lmax_ge_aux l _).2 a h
 
+/-! ### the rounding step as a parameter; `use_stochastic_rounding` × learning phase
+    (strengthening round, seed C02-7) -/
+
+theorem qbitsR_roundTie (t : Tie) (c : BitsCfg) (x : ℚ) : qbitsR (roundTie t) c x = qbits t c x := rfl
+theorem qreluR_roundTie (t : Tie) (c : ReluCfg) (x : ℚ) :
+    qreluR (roundTie t) (roundTie t) c x = qrelu t c x := rfl
+theorem qreluUR_roundTie (t : Tie) (c : ReluCfg) (x : ℚ) :
+    qreluUR (roundTie t) (roundTie t) c x = qreluU t c x := rfl
+theorem qreluSigUR_roundTie (t : Tie) (c : ReluCfg) (s : ℚ) :
+    qreluSigUR (roundTie t) (roundTie t) c s = qreluSigU t c s := rfl
+theorem qlinearR_roundTie (t : Tie) (c : LinCfg) (x : ℚ) : qlinearR (roundTie t) c x = qlinear t c x := rfl
+theorem qtanhPR_roundTie (t : Tie) (bits : ℤ) (sym : Bool) (p : ℚ) :
+    qtanhPR (roundTie t) bits sym p = qtanhP t bits sym p := rfl
+theorem qsigmoidPR_roundTie (t : Tie) (bits : ℤ) (sym : Bool) (p : ℚ) :
+    qsigmoidPR (roundTie t) bits sym p = qsigmoidP t bits sym p := rfl
+
+/-- learning phase off: `_round_through` is `tf.round`, whatever the flag and the draw -/
+theorem roundThroughI_infer (t : Tie) (stoch : Bool) (u : ℚ) : roundThroughI t stoch false u = roundTie t := by
+  funext x; cases stoch <;> rfl
+
+/-- flag off: `_round_through` is `tf.round`, whatever the phase and the draw -/
+theorem roundThroughI_noflag (t : Tie) (phase : Bool) (u : ℚ) : roundThroughI t false phase u = roundTie t := by
+  funext x; rfl
+
+/-- the round mode is deterministic: flag off or learning phase off -/
+def RoundMode.Det (r : RoundMode) : Prop := r.stoch = false ∨ r.phase = false
+
+theorem RoundMode.rho_det (t : Tie) {r : RoundMode} (h : r.Det) : r.rho t = roundTie t := by
+  unfold RoundMode.rho
+  rcases h with h | h <;> rw [h]
+  · exact roundThroughI_noflag t _ _
+  · exact roundThroughI_infer t _ _
+
+theorem RoundMode.rho2_det (t : Tie) {r : RoundMode} (h : r.Det) : r.rho2 t = roundTie t := by
+  unfold RoundMode.rho2
+  rcases h with h | h <;> rw [h]
+  · exact roundThroughI_noflag t _ _
+  · exact roundThroughI_infer t _ _
+
+/-- a rounding step that returns one of the two integers adjacent to its argument -/
+def Adjacent (ρ : ℚ → ℤ) : Prop := ∀ x : ℚ, ⌊x⌋ ≤ ρ x ∧ ρ x ≤ ⌈x⌉
+
+theorem roundTie_adjacent (t : Tie) : Adjacent (roundTie t) := by
+  intro x
+  have hfc : ⌈x⌉ ≤ ⌊x⌋ + 1 := Int.ceil_le_floor_add_one x
+  have hfl : ⌊x⌋ ≤ ⌈x⌉ := Int.floor_le_ceil x
+  rcases roundTie_cases t x with h | h
+  · rw [h]; exact ⟨le_refl _, hfl⟩
+  · have e : x.floor = ⌊x⌋ := rfl
+    rw [h, e]
+    refine ⟨by omega, ?_⟩
+    -- `roundTie = floor + 1` happens only when `x` is not an integer
+    by_contra hc
+    have hceil : ⌈x⌉ = ⌊x⌋ := by omega
+    have hx : x = (⌊x⌋ : ℚ) := by
+      have h1 := Int.floor_le x
+      have h2 := Int.le_ceil x
+      rw [hceil] at h2
+      exact le_antisymm h2 h1
+    have := roundTie_int t ⌊x⌋
+    rw [← hx] at this
+    rw [this] at h
+    omega
+
+theorem stochRound1_cases (x u : ℚ) : stochRound1 x u = ⌊x⌋ ∨ stochRound1 x u = ⌈x⌉ := by
+  unfold stochRound1
+  split
+  · left; rfl
+  · right
+    have : (-x).floor = ⌊-x⌋ := rfl
+    rw [this, Int.floor_neg]; simp
+
+theorem stochRound1_adjacent (u : ℚ) : Adjacent (fun x => stochRound1 x u) := by
+  intro x
+  have hfl : ⌊x⌋ ≤ ⌈x⌉ := Int.floor_le_ceil x
+  rcases stochRound1_cases x u with h | h <;> simp only [h] <;> omega
+
+/-- `_round_through` returns an adjacent integer under EVERY flag, phase and draw -/
+theorem roundThroughI_adjacent (t : Tie) (stoch phase : Bool) (u : ℚ) : Adjacent (roundThroughI t stoch phase u) := by
+  intro x
+  unfold roundThroughI
+  cases stoch <;> cases phase <;> simp only [if_true, if_false, Bool.false_eq_true]
+  · exact roundTie_adjacent t x
+  · exact roundTie_adjacent t x
+  · exact roundTie_adjacent t x
+  · exact stochRound1_adjacent u x
+
+theorem RoundMode.rho_adjacent (t : Tie) (r : RoundMode) : Adjacent (r.rho t) := roundThroughI_adjacent _ _ _ _
+theorem RoundMode.rho2_adjacent (t : Tie) (r : RoundMode) : Adjacent (r.rho2 t) := roundThroughI_adjacent _ _ _ _
+
+/-- an adjacent rounding of a value between two integers stays between them -/
+theorem Adjacent.mem {ρ : ℚ → ℤ} (h : Adjacent ρ) {x : ℚ} {lo hi : ℤ} (h1 : (lo : ℚ) ≤ x) (h2 : x ≤ (hi : ℚ)) :
+    lo ≤ ρ x ∧ ρ x ≤ hi := by
+  obtain ⟨a, b⟩ := h x
+  exact ⟨le_trans (Int.le_floor.mpr h1) a, le_trans b (Int.ceil_le.mpr h2)⟩
+
+/-- … and is less than one away from it -/
+theorem Adjacent.err {ρ : ℚ → ℤ} (h : Adjacent ρ) (x : ℚ) : |((ρ x : ℤ) : ℚ) - x| < 1 := by
+  obtain ⟨a, b⟩ := h x
+  have a' : ((⌊x⌋ : ℤ) : ℚ) ≤ (ρ x : ℚ) := by exact_mod_cast a
+  have b' : (ρ x : ℚ) ≤ ((⌈x⌉ : ℤ) : ℚ) := by exact_mod_cast b
+  have h1 := Int.sub_one_lt_floor x
+  have h2 := Int.ceil_lt_add_one x
+  rw [abs_lt]; constructor <;> linarith
+
 end QKV
